@@ -1,6 +1,8 @@
 import AspireModel.Props.C06
+import AspireModel.Props.C18
 import AspireModel.Lemmas.TieWeights
 import AspireModel.Gen.SrcSchedule
+import AspireModel.Gen.SrcLoop
 /-
   C06 / C07, tie to the source: `SMCSampler.current_target_efficiency` and `SMCSampler.determine_beta` as
   translated from `/repo/src/aspire/samplers/smc/base.py` on every run (`Gen/SrcSchedule.lean`) are the
@@ -57,7 +59,55 @@ theorem tie_eff_curve (β : α) (ll lp lq : List α) (n : Nat) (hn : n = (Model.
   funext b
   exact Tie.effAt_eq β b ll lp lq n (by rw [hn]; exact Tie.unnormLogW_length_indep β β b ll lp lq)
 
+/-- the prologue of `SMCSampler.sample` that initialises `min_step` / `adaptive_min_step`
+    (`if min_step is None: ...`) is the model's `initMinStep` -/
+theorem tie_init_min_step (ms : Option α) (mx : Option Nat) :
+    Gen.init_min_step ms mx = Model.initMinStep ms mx := by
+  cases ms <;> cases mx <;> rfl
+
 end generic
+
+/-- `β == 1.0` as the loop of the model decides it (`Kit.isOne` of the driver) -/
+noncomputable def isOneR (b : ℝ) : Bool := decide (b ≤ 1) && decide (1 ≤ b)
+
+/-- the loop's exit test `if beta == 1.0 or (max_n_steps is not None and iterations >= max_n_steps): break`
+    as translated from the source is the `stop` flag of `Model.iterate` -/
+theorem tie_loop_exit (β : ℝ) (mx : Option ℕ) (it : ℕ) :
+    Gen.loop_exit β mx it
+      = (isOneR β || (match mx with | some m => decide (m ≤ it) | none => false)) := by
+  have h : decide (¬ Gen.ne β 1) = (decide (β ≤ 1) && decide (1 ≤ β)) := by
+    rw [Bool.eq_iff_iff]
+    simp only [Gen.ne, decide_eq_true_eq, Bool.and_eq_true, not_or, not_lt]
+    exact and_comm
+  unfold Gen.loop_exit isOneR
+  rw [← h]
+  cases mx with
+  | none => simp
+  | some m => by_cases hm : m ≤ it <;> simp [hm]
+
+/-- ... hence, for every kit whose `isOne` is `== 1.0`, the Boolean `Model.iterate` returns IS the translated test
+    evaluated at the new temperature and iteration count -/
+theorem src_iterate_stop {P : Type} (k : Kit P ℝ) (cfg : SmcCfg ℝ) (st st' : St P ℝ) (s : Step P) (stop : Bool)
+    (hk : ∀ b, k.isOne b = isOneR b) (h : iterate k cfg st s = .ok (st', stop)) :
+    stop = Gen.loop_exit st'.beta cfg.maxSteps st'.iter := by
+  rw [tie_loop_exit]
+  unfold iterate at h
+  cases hb : k.nextBeta st.pop st.beta st.minStep with
+  | error e => simp [hb, bind, Except.bind] at h
+  | ok bm =>
+    obtain ⟨b, m⟩ := bm
+    simp only [hb, bind, Except.bind, pure, Except.pure, Except.ok.injEq, Prod.mk.injEq] at h
+    obtain ⟨h1, h2⟩ := h
+    subst h1
+    rw [← h2, hk]
+    simp only [C18.mc_beta, C18.mc_iter]
+    cases cfg.maxSteps <;> rfl
+
+/-- with `min_step=None, max_n_steps=M` the source initialises the minimum step to `1/M` and lets it adapt:
+    exactly the starting point of `cap_reaches_one` -/
+theorem src_init_min_step_cap (M : ℕ) :
+    Gen.init_min_step (none : Option ℝ) (some M) = (1 / (M : ℝ), true) := by
+  rw [tie_init_min_step]; rfl
 
 /-- the source function, packaged: what `determine_beta` returns for schedule options `c` -/
 noncomputable def srcDetermineBeta (c : BetaCfg ℝ) (rn : ℝ → ℕ) (ll lp lq : List ℝ) (n fuel : ℕ)
